@@ -211,6 +211,16 @@ def _reduce_fields(t: Any, alias: Optional[Dict[str, str]] = None) -> Any:
     return r
 
 
+def _retag_sites(t: Any, k: int) -> Any:
+    """the calls made for the k-th element of an unrolled comprehension are calls of their own: one call site in the
+    text, one call per element"""
+    if not isinstance(t, tuple) or not t:
+        return t
+    if t[0] == "app" and len(t) == 5:
+        return ("app", _retag_sites(t[1], k), _retag_sites(t[2], k), _retag_sites(t[3], k), ("el", t[4], k))
+    return tuple(_retag_sites(x, k) for x in t)
+
+
 def splice_literals(t: Any, _memo: Optional[Dict[int, Any]] = None) -> Any:
     """after parameters were bound: `[f(v) for v in (a, b)]` is `[f(a), f(b)]`, `[x, *[y, z]]` is `[x, y, z]`, and a
     bound method that was handed to a helper and called there (`visitor(node)` with visitor := self.generic_visit)
@@ -231,10 +241,14 @@ def splice_literals(t: Any, _memo: Optional[Dict[int, Any]] = None) -> Any:
         # map(f, (a, b)) over a literal: [f(a), f(b)] wherever its elements are what matters (it is only ever spliced or listed)
         f_ = r[2][0]
         r = ("list", tuple(("app", f_, (x,), ()) for x in r[2][1][1]))
+    elif len(r) == 3 and r[0] == "index" and isinstance(r[2], int) and isinstance(r[1], tuple) and len(r[1]) == 4 and r[1][0] == "comp" and r[1][1] == "GeneratorExp" and len(r[1][3]) == 1 and not r[1][3][0][1] and isinstance(r[1][3][0][0], tuple) and r[1][3][0][0][:1] in (("tuple",), ("list",)) and 0 <= r[2] < len(r[1][3][0][0][1]):
+        # a, b = (f(x) for x in (p, q)): the i-th component is f(<i-th element>)
+        it = r[1][3][0][0]
+        r = _retag_sites(splice_literals(subst(r[1][2], {("elem", it): it[1][r[2]]}), _memo), r[2])
     elif len(r) == 4 and r[0] == "comp" and r[1] == "ListComp" and len(r[3]) == 1:
         it, conds = r[3][0]
         if isinstance(it, tuple) and it and it[0] in ("tuple", "list") and not conds:
-            r = ("list", tuple(splice_literals(subst(r[2], {("elem", it): x}), _memo) for x in it[1]))
+            r = ("list", tuple(_retag_sites(splice_literals(subst(r[2], {("elem", it): x}), _memo), i_) for i_, x in enumerate(it[1])))
     elif len(r) == 2 and r[0] in ("list", "tuple") and isinstance(r[1], tuple) and any(isinstance(x, tuple) and len(x) == 3 and x[0] == "op" and x[1] == "Starred" and x[2][0][0] in ("list", "tuple") for x in r[1]):
         out = []
         for x in r[1]:
